@@ -15,6 +15,7 @@ import (
 	"io"
 	"os"
 	"sort"
+	"strings"
 	"sync"
 	"testing"
 	"time"
@@ -85,7 +86,8 @@ func walletIdent(i int) ident { _, w := idents(); return w[i] }
 func nodeName(id string) string {
 	n, w := idents()
 	for _, x := range n {
-		if x.nodeID == id {
+		// (the same key in another spelling - upper case, 0x prefix - is still that node)
+		if x.nodeID == id || strings.EqualFold(x.nodeID, strings.TrimPrefix(strings.TrimPrefix(id, "0x"), "0X")) {
 			return x.name
 		}
 	}
